@@ -536,6 +536,30 @@ def partial_eval(folder: Folder, func_node: ast.FunctionDef, mod, cls, env: Dict
                     env[st.targets[0].id] = fold(st.value)
                 except Unfoldable as e:
                     return ("unknown", f"`{src(st)}`: {e}")
+            elif isinstance(st, ast.For) and not st.orelse:
+                # a loop over a table that folds to a concrete sequence (at most 256 items): run it on the folded items
+                try:
+                    seq = fold(st.iter)
+                except Unfoldable as e:
+                    return ("unknown", f"loop over `{src(st.iter)}`: {e}")
+                if isinstance(seq, dict):
+                    seq = list(seq)
+                if not isinstance(seq, (list, tuple)) or len(seq) > 256:
+                    return ("unknown", f"loop over `{src(st.iter)}`")
+                stop = False
+                for item in seq:
+                    if isinstance(st.target, ast.Name):
+                        env[st.target.id] = item
+                    elif isinstance(st.target, ast.Tuple) and all(isinstance(e_, ast.Name) for e_ in st.target.elts) and isinstance(item, (tuple, list)) and len(item) == len(st.target.elts):
+                        for e_, v_ in zip(st.target.elts, item):
+                            env[e_.id] = v_
+                    else:
+                        return ("unknown", f"loop target `{src(st.target)}`")
+                    if any(isinstance(x, (ast.Break, ast.Continue)) for b_ in st.body for x in ast.walk(b_)):
+                        return ("unknown", "break/continue in a loop")
+                    r = run(st.body)
+                    if r is not None:
+                        return r
             elif isinstance(st, ast.AugAssign) and isinstance(st.target, ast.Name):
                 try:
                     env[st.target.id] = fold(ast.BinOp(left=ast.Name(id=st.target.id, ctx=ast.Load()), op=st.op, right=st.value))
